@@ -54,6 +54,13 @@ var gens = []generator{
 	{file: "OriginReader.lean", src: "seqio/genbank_subparsers.go (makeGenbankOriginParser)", run: genOriginReader},
 	{file: "PanicSites.lean", src: "the parser files anchored by C07", run: genPanicSites},
 	{file: "CacheFile.lean", src: "cmd/cache/header.go, cmd/cache/file.go, cmd/gts/io.go", run: genCacheFile},
+	{file: "GoList.lean", src: "(fixed prelude: Go's slice and map operations on lists)", run: genGoList},
+	{file: "SortSearch.lean", src: "$GOROOT/src/sort/search.go (sort.Search)", run: genSortSearch},
+	{file: "FeatLess.lean", src: "feature.go (FeatureSlice.Less)", run: genFeatLess},
+	{file: "FeatInsert.lean", src: "feature.go (FeatureSlice.Insert)", run: genFeatInsert},
+	{file: "FeatFilter.lean", src: "feature.go (filter constructors, FeatureSlice.Filter)", run: genFeatFilter},
+	{file: "FeatSelector.lean", src: "feature.go (shiftSelector, toQualifier)", run: genFeatSelector},
+	{file: "FeatRepair.lean", src: "feature.go (Repair)", run: genFeatRepair},
 }
 
 func writeIfChanged(path string, content []byte) (bool, error) {
